@@ -13,7 +13,7 @@ META["C09"] = dict(
           "total preorder of the key list for all key lists and rows; sorting with it yields a strongly sorted permutation; "
           "Limit over Offset deliver exactly rows m..m+n-1 for all n,m>=0 (LIMIT 0 => none); the planner's composition equals "
           "that slice of the sorted result; and the executable oracle is sound. The oracle is then evaluated inside Coq on the "
-          "output of the real core.Sort/Offset/Limit and planner.addOrderLimitOffset for generated row sets."),
+          "output of the real core.Sort/Offset/Limit and planner.addOrderLimitOffset for generated row sets, and on ORDER BY / LIMIT queries run through the real DB."),
     design_ref="DESIGN.md section 4 / C09",
     note=("Trusted: Coq kernel incl. vm_compute; the hand-written model of core/sort.go, core/compare.go, core/limit.go, core/offset.go, "
           "planner.addOrderLimitOffset (tied by correspondence on every run); the Go harness and its generator. core.compare's "
@@ -82,7 +82,29 @@ META["C03"] = dict(
     design_ref="DESIGN.md section 4 / C03", note=_DBNOTE + " The store model covers one column; per-field independence, sorted flushes (emsort) and memory-pressure flushes are covered by correspondence only / not at all respectively.",
     technique="Coq proof (store refinement by induction over operation lists, StoreP.v) + real DB under generated schedules vs specification model")
 
+META["C04"] = dict(
+    text=("Theorems (Props/C04.v): in the row-store model a reader is a function of the state (any sequence of reads leaves every later "
+          "read unchanged); Truncate yields exactly the periods in range with unchanged values; a probe reads the same before and "
+          "after a flush. Correspondence: [probe, Q, probe, flush, probe] rounds on the real DB with Q incl. past-UNTIL ranges, and "
+          "operand-bytes-unchanged checks on the real Sequence.Truncate/Merge/SubMerge."),
+    design_ref="DESIGN.md section 4 / C04", note=_DBNOTE + " Buffer aliasing inside encoding.Sequence is covered by the byte-level operand check of the correspondence, not by a heap-level theorem (the memstore snapshot's aliasing is: see C18).",
+    technique="Coq proof (functional store model, truncate denotation) + probe/query/probe differential on the real DB + operand byte comparison")
+META["C17"] = dict(
+    text=("Theorem (Props/C17.v): in the model of doProcessIterations every iteration of a coalesced scan is delivered exactly the rows "
+          "(projected to its fields) and ends in exactly the status it would have alone, for all field lists, early stops and "
+          "failures of the others. Correspondence: concurrent generated queries plus adversaries on the real DB with a coalesce "
+          "interval that forces sharing, each compared with its solo result."),
+    design_ref="DESIGN.md section 4 / C17", note=_DBNOTE + " Go-level data races inside the shared scan are runtime behaviour outside the model.",
+    technique="Coq proof (pointwise simulation of the shared scan by solo scans) + concurrent-vs-solo differential on the real DB")
+META["C18"] = dict(
+    text=("Theorem (Props/C18.v): in the buffer-level model of the memstore snapshot, after a deep copy no later operation of the live "
+          "store (in-place updates of existing periods, new keys, flushes) changes any buffer the snapshot points to; the shipped "
+          "shallow copy is refuted by a witness (Proofs/AliasP.v). Correspondence: scans on the real DB paused after the k-th row "
+          "while points are inserted and flushed."),
+    design_ref="DESIGN.md section 4 / C18", note=_DBNOTE + " The file side of the snapshot (a flush replaces the file while the old one is still being read) is covered by the correspondence only.",
+    technique="Coq proof (frame invariant over heap regions) + paused-scan differential on the real DB")
+
 NOT_APPLICABLE = [
     {"property_id": p, "reason": _PENDING}
-    for p in ["C02", "C04", "C10", "C11", "C12", "C13", "C14", "C15", "C16", "C17", "C18", "C19", "C20"]
+    for p in ["C02", "C10", "C11", "C12", "C13", "C14", "C15", "C16", "C19", "C20"]
 ]
